@@ -22,8 +22,7 @@ META = {
         'thorough': {'path length': '<= 4', 'wildcards per path': '0-3'},
     },
     'stubs': ['S3 glom_debug=True', 'S4 state reset'],
-    'outside_claim': ['graphs with more than 7 containers', 'user-registered keys/iterate handlers (C13)', 'Assign/Delete through '
-                      'wildcards are checked under C11/C12'],
+    'outside_claim': ['graphs with more than 7 containers', 'user-registered keys/iterate handlers (C13)'],
     'assumptions': [],
 }
 
@@ -47,6 +46,14 @@ class BadIter:
 
     def __iter__(self):
         raise RuntimeError('no iteration')
+
+
+class Bag(dict):
+    """a user mapping: dict subclass WITHOUT __slots__, so instances have a __dict__ as well"""
+
+
+class OBag(OrderedDict):
+    pass
 
 
 FUEL = [0]
@@ -139,8 +146,8 @@ def same(a, b, depth):
     return a is b
 
 
-NSHAPE = 12
-SHAPES = ['tree', 'dag', 'rootcycle', 'twocycle', 'listcycle', 'obj', 'mixed', 'badget', 'odict', 'scalar', 'empty', 'baditer']
+NSHAPE = 14
+SHAPES = ['tree', 'dag', 'rootcycle', 'twocycle', 'listcycle', 'obj', 'mixed', 'badget', 'odict', 'scalar', 'empty', 'baditer', 'usermap', 'stdmaps']
 
 
 def graph(shape, a, b):
@@ -175,6 +182,19 @@ def graph(shape, a, b):
         return a
     if shape == 10:
         return FuelDict()
+    if shape == 12:
+        # user mapping classes: dict subclasses whose instances also have a __dict__ (attributes are NOT children)
+        inner = Bag(k=b, z=Bag(k=a))
+        inner.note = 'an attribute, not an item'
+        r = Bag(k=a, a=inner, l=[Bag(k=b)])
+        r.k = 'attribute k'
+        return r
+    if shape == 13:
+        import collections
+        dd = collections.defaultdict(None)            # no default_factory: a read never inserts
+        dd['k'] = a
+        dd['a'] = collections.Counter({'k': 2, 'zz': 1})
+        return OBag([('k', b), ('a', dd), ('c', collections.Counter(k=a))])
     return FuelDict({'k': BadIter(), 'a': [BadIter(), {'k': a}]})
 
 
@@ -283,6 +303,39 @@ def star_off(shape: int, c0: int, a: int, b: int) -> bool:
     return (g1 == a and g2 == b and g3 == [a, b]) or fail(g1=g1, g2=g2, g3=g3)
 
 
+# ---- Assign / Delete through wildcards act on every entry (ragged and empty containers included) -------------
+def star_mutate(op: int, nw: int, final: int, style: int, s0: int, s1: int, s2: int, a: int, v: int) -> bool:
+    import copy
+    from glom import Assign, Delete
+    from harness.mutlib import ragged, ragged_path
+    start()
+    op, nw, final, style = concretize(op, 0, 1), concretize(nw, 1, 3), concretize(final, 0, 2), concretize(style, 0, 2)
+    s0, s1, s2 = concretize(s0, 0, 2), concretize(s1, 0, 2), concretize(s2, 0, 2)
+    if OUT in (op, nw, final, style, s0, s1, s2):
+        return True
+    t, leaves = ragged(nw, [s0, s1, s2], final, a)
+    before = [copy.deepcopy(l) for l in leaves]
+    path = ragged_path(nw, final, style)
+    got = run(lambda: glom(t, Assign(path, v) if op == 0 else Delete(path), glom_debug=True))
+    reach('star_mutate')
+    if not leaves:
+        reach('star_mutate_none')
+    if got.kind != 'ok' or got.value is not t:
+        return fail(why='a wildcard Assign/Delete over these entries must succeed (no entry: no-op)', got=got, n=len(leaves))
+    for lf, b in zip(leaves, before):
+        if op == 0:
+            ok = (lf['v'] == v and lf['keep'] == b['keep']) if final == 0 else ((lf[0] == v and lf[1:] == b[1:]) if final == 1 else (lf.v == v and lf.keep == b.keep))
+        elif final == 0:
+            ok = 'v' not in lf and lf.get('keep') == b['keep']
+        elif final == 1:
+            ok = lf == b[1:]
+        else:
+            ok = not hasattr(lf, 'v') and lf.keep == b.keep
+        if not ok:
+            return fail(why='not applied at every entry', leaf=lf, before=b, n=len(leaves), op=op)
+    return True
+
+
 def obligations(tier):
     q = tier == 'quick'
     obs = []
@@ -305,6 +358,11 @@ def obligations(tier):
                     obs.append(Ob(star4, fixed={'shape': shape, 'spelling': 0, 'c0': c0, 'c1': c1}, pre='0 <= c2 < 4 and 0 <= c3 < 4',
                                   name='star4_%s_%d_%d' % (SHAPES[shape], c0, c1)))
     obs.append(Ob(star_off, fixed={'shape': 0, 'c0': 0}, name='star_off'))
+    wp = '0 <= final <= 2 and 0 <= style <= 2 and 0 <= s0 <= 2 and 0 <= s1 <= 2 and 0 <= s2 <= 2'
+    for op in (0, 1):
+        for nw in (1, 2, 3):
+            obs.append(Ob(star_mutate, fixed={'op': op, 'nw': nw}, pre=wp, name='star_mutate_%s_w%d' % (['assign', 'delete'][op], nw), timeout=200))
+    obs.append(Ob(star_mutate, fixed={'op': 0, 'nw': 2}, pre=wp, twin='star_mutate_none', name='star_mutate_assign_w2'))
     obs.append(Ob(star2, fixed={'shape': 3, 'spelling': 0}, pre='0 <= c0 < %d and 0 <= c1 < %d' % (NSEG, NSEG), twin='star2', name='star2_twocycle'))
     obs.append(Ob(star2, fixed={'shape': 3, 'spelling': 0}, pre='0 <= c0 < %d and 0 <= c1 < %d' % (NSEG, NSEG), twin='star_many', name='star2_twocycle'))
     obs.append(Ob(star1, fixed={'shape': 2, 'spelling': 2}, pre='0 <= c0 < %d' % NSEG, twin='star', name='star1_rootcycle'))
